@@ -16,6 +16,16 @@ package main
 //                               BSorted[by class]. A walk (op 5, 6, 7) that is not over after 2n+3 pages is status 2.
 // op 6 table [kw] [k asc]    -> (asc = 0: the same walk descending)
 // op 8 step step ...         -> a history of reloads / creations / lookups in fresh driver state (c11hist.go)
+// op 10 names [ftitles] [mode f...] [k asc by]
+//                            -> FILTERED listing walk through bbs.LoadGeneralBoards: ftitles = one NUL-terminated whole title per board
+//                               (class, blank, the rest); mode 1 = title filter f, 2 = keyword filter f (title or name); by 0 = name,
+//                               1 = class: pages, visited positions of BSorted[by]
+// op 11 table [dirstate per board] [k asc by] [kw...]
+//                            -> listing walk (by 0 = name, 1 = class, 2 = auto-complete with prefix kw) right after a ReloadBCache
+//                               (no article count cached) with the boards' own article indexes in these states: 0 no .DIR, 1 two
+//                               records with a 10-digit time-stamp, 2 last record "M.997843374.A.1EA" (9 digits), 3 .DIR is a
+//                               directory, 4 one record with an all-NUL filename, 5 one record "garbage" + half a record,
+//                               6 last record ".d" (safe-deleted), 7 as 1 + .DIR.bottom is a directory
 
 import (
 	"bytes"
@@ -50,6 +60,23 @@ func init() {
 	last := "\x00"
 	var nBoards int
 
+	install := func(names, titles [][]byte) {
+		buf := &bytes.Buffer{}
+		for i, nm := range names {
+			b := &ptttype.BoardHeaderRaw{}
+			copy(b.Brdname[:], nm)
+			if len(nm) > 0 {
+				copy(b.Title[:], titles[i])
+				b.Gid = 1
+			}
+			must(binary.Write(buf, binary.LittleEndian, b))
+		}
+		must(os.WriteFile(filepath.Join(env.home, ".BRD"), buf.Bytes(), 0o644))
+		cache.Shm.Shm.BNumber = 0
+		cache.ReloadBCache()
+		nBoards = len(names)
+	}
+
 	load := func(nameToks, titleToks []string) {
 		key := strings.Join(nameToks, " ") + "|" + strings.Join(titleToks, " ")
 		if key == last {
@@ -60,22 +87,86 @@ func init() {
 		if len(titles) != 5*len(names) {
 			panic("badcase:titles")
 		}
-		buf := &bytes.Buffer{}
-		for i, nm := range names {
-			b := &ptttype.BoardHeaderRaw{}
-			copy(b.Brdname[:], nm)
-			if len(nm) > 0 {
-				copy(b.Title[:], titles[5*i:5*i+5])
-				copy(b.Title[5:], []byte("\xa1\xb7test board"))
-				b.Gid = 1
-			}
-			must(binary.Write(buf, binary.LittleEndian, b))
+		full := make([][]byte, len(names))
+		for i := range names {
+			full[i] = append(append([]byte{}, titles[5*i:5*i+5]...), []byte("\xa1\xb7test board")...)
 		}
-		must(os.WriteFile(filepath.Join(env.home, ".BRD"), buf.Bytes(), 0o644))
-		cache.Shm.Shm.BNumber = 0
-		cache.ReloadBCache()
-		nBoards = len(names)
+		install(names, full)
 		last = key
+	}
+
+	// whole titles, one NUL-terminated string per board (op 10)
+	loadFull := func(nameToks, ftitleToks []string) {
+		key := "F|" + strings.Join(nameToks, " ") + "|" + strings.Join(ftitleToks, " ")
+		if key == last {
+			return
+		}
+		names := c11Split0(nameToks)
+		full := c11Split0(ftitleToks)
+		if len(full) != len(names) {
+			panic("badcase:ftitles")
+		}
+		install(names, full)
+		last = key
+	}
+
+	// the boards' own article indexes (op 11); returns the clean-up
+	setDirs := func(states []string) func() {
+		if len(states) != nBoards {
+			panic("badcase:dirstates")
+		}
+		created := []string{}
+		cleanup := func() {
+			for _, d := range created {
+				_ = os.RemoveAll(d)
+			}
+		}
+		rec := func(fn string) []byte {
+			r := make([]byte, ptttype.FILE_HEADER_RAW_SZ)
+			copy(r, fn)
+			return r
+		}
+		for i := 0; i < nBoards; i++ {
+			st := ai(states[i])
+			nm := types.CstrToString(cache.Shm.Shm.BCache[i].Brdname[:])
+			if st == 0 || nm == "" {
+				continue
+			}
+			if strings.ContainsAny(nm, "/") || nm == "." || nm == ".." {
+				cleanup()
+				panic("badcase:boarddir")
+			}
+			dir := filepath.Join(env.home, "boards", nm[:1], nm)
+			if _, err := os.Stat(dir); err == nil {
+				cleanup()
+				panic("badcase:boarddir exists")
+			}
+			must(os.MkdirAll(dir, 0o755))
+			created = append(created, dir)
+			fnDir := filepath.Join(dir, ptttype.FN_DIR)
+			modern := append(rec("M.1607202239.A.30D"), rec("M.1607202240.A.30E")...)
+			switch st {
+			case 1:
+				must(os.WriteFile(fnDir, modern, 0o644))
+			case 2:
+				must(os.WriteFile(fnDir, append(rec("M.1607202239.A.30D"), rec("M.997843374.A.1EA")...), 0o644))
+			case 3:
+				must(os.MkdirAll(filepath.Join(fnDir, "x", "y"), 0o755))
+			case 4:
+				must(os.WriteFile(fnDir, rec(""), 0o644))
+			case 5:
+				must(os.WriteFile(fnDir, append(rec("garbage"), rec("M.1607202239.A.30D")[:len(rec(""))/2]...), 0o644))
+			case 6:
+				must(os.WriteFile(fnDir, append(rec("M.1607202239.A.30D"), rec(".d")...), 0o644))
+			case 7:
+				must(os.WriteFile(fnDir, modern, 0o644))
+				must(os.MkdirAll(filepath.Join(dir, ptttype.FN_DIR_BOTTOM, "x"), 0o755))
+			default:
+				cleanup()
+				panic("badcase:dirstate")
+			}
+		}
+		return cleanup
 	}
 
 	posByName := func(name string) int64 {
@@ -114,8 +205,77 @@ func init() {
 				last = "\x00"
 				return c11Scenario(env, args[1:])
 			}
-			load(args[1], args[2])
+			if op == 10 {
+				loadFull(args[1], args[2])
+			} else {
+				load(args[1], args[2])
+			}
+			// a listing paged through its own next-cursor: pages, positions of the listed boards in BSorted[by]
+			walk := func(by ptttype.BSortBy, fetch func(cursor string) ([]*bbs.BoardSummary, string, error)) []string {
+				visited := []string{}
+				pages := int64(0)
+				cursor := ""
+				for iter := 0; iter < 2*nBoards+3; iter++ {
+					ss, next, err := fetch(cursor)
+					if err != nil {
+						return append([]string{"3", "1", oi(pages)}, visited...)
+					}
+					pages++
+					for _, s := range ss {
+						if by == ptttype.BSORT_BY_CLASS {
+							visited = append(visited, oi(posByClass(s.Brdname)))
+						} else {
+							visited = append(visited, oi(posByName(s.Brdname)))
+						}
+					}
+					if next == "" {
+						return append([]string{"0", oi(pages)}, visited...)
+					}
+					cursor = next
+				}
+				return []string{"2"}
+			}
 			switch op {
+			case 10:
+				f := ab(args[3][1:])
+				var title, keyword []byte
+				switch ai(args[3][0]) {
+				case 1:
+					title = f
+				case 2:
+					keyword = f
+				default:
+					panic("badcase:mode")
+				}
+				k, asc := int(ai(args[4][0])), ai(args[4][1]) != 0
+				by := ptttype.BSORT_BY_NAME
+				if ai(args[4][2]) != 0 {
+					by = ptttype.BSORT_BY_CLASS
+				}
+				return walk(by, func(cursor string) ([]*bbs.BoardSummary, string, error) {
+					return bbs.LoadGeneralBoards(bbs.UUserID("SYSOP"), cursor, k, title, keyword, asc, by)
+				})
+			case 11:
+				cleanup := setDirs(args[3])
+				defer cleanup()
+				cache.ReloadBCache() // a fresh table: no article count is cached
+				k, asc, mode := int(ai(args[4][0])), ai(args[4][1]) != 0, ai(args[4][2])
+				switch mode {
+				case 0, 1:
+					by := ptttype.BSORT_BY_NAME
+					if mode == 1 {
+						by = ptttype.BSORT_BY_CLASS
+					}
+					return walk(by, func(cursor string) ([]*bbs.BoardSummary, string, error) {
+						return bbs.LoadGeneralBoards(bbs.UUserID("SYSOP"), cursor, k, nil, nil, asc, by)
+					})
+				case 2:
+					kw := string(ab(args[5]))
+					return walk(ptttype.BSORT_BY_NAME, func(cursor string) ([]*bbs.BoardSummary, string, error) {
+						return bbs.LoadAutoCompleteBoards(bbs.UUserID("SYSOP"), cursor, k, kw, asc)
+					})
+				}
+				panic("badcase:mode")
 			case 0:
 				n := int(cache.Shm.GetBNumber())
 				out := []string{"0", oi(int64(n))}
